@@ -312,3 +312,37 @@ func OneStringParam(params []any, v string) bool {
 //@   ensures[string-is-param] IsStringVal(in) ==> err == nil && s == "?" && OneStringParam(params, StringOf(in))
 //@   ensures[string-leaf-is-one-param] err == nil && IsStrLeaf(in) ==> OneStringParam(params, LeafString(in))
 //@   loop 0: rangeinv true
+
+// ---- validation guards rendering -----------------------------------------------------------------------
+
+// LemmaParsedRenderable: a parser-built tree that passed validation satisfies what
+// Render and RenderParam require (induction over the tree).
+//
+//@ func LemmaParsedRenderable
+//@   lemma
+//@   structural
+//@   props C01 C10 C13
+//@   fuel 2 ShapeP=2 ShapeV=2 RenderOK=2
+//@   requires expr.ShapeP(a) && expr.ShapeV(a)
+//@   ensures  RenderOK(a)
+
+func LemmaParsedRenderable(a any) {
+	e, ok := a.(*expr.Expression)
+	if !ok || e == nil || expr.LeafOp(e.Op) || e.Op == expr.List {
+		return
+	}
+	LemmaParsedRenderable(e.Left)
+	if b, isB := e.Right.(*expr.RangeBoundary); isB && b != nil {
+		LemmaParsedRenderable(b.Min)
+		LemmaParsedRenderable(b.Max)
+		return
+	}
+	if e.Right != nil {
+		LemmaParsedRenderable(e.Right)
+	}
+}
+
+//@ func NewPostgresDriver
+//@   trusted
+//@   props C15 C14
+//@   ensures Builtin(result.Base) && RangAt(result.Base)
